@@ -9,19 +9,28 @@ from .. import gen, loader
 from ..engine import Outcome, Prop, compare
 from ..render import COMMA, END, EQ, I, K, L, LP, N, RP, T, V, plist, render_script
 
-KINDS = ["enum", "object", "table", "kv", "domain", "schema", "database", "tablespace"]
+KINDS = ["enum", "object", "table", "kv", "domain", "domain_enum", "schema", "database", "tablespace"]
 SCHEMA_FORMS = ["plain", "ine", "auth", "ine_auth", "only_auth", "comment", "comment_eq", "ine_comment", "replace", "project"]
 NAME_STYLES = ("plain", "plain", "dq", "dqsp", "br", "bt")
 
 
 @st.composite
-def case_strategy(draw):
+def case_strategy(draw, more=True):
+    c = draw(one_declaration())
+    # further declarations of any kind in the same script: every one must still yield its own exact entity
+    c["more"] = [draw(one_declaration(layout=False)) for _ in range(draw(st.sampled_from([0, 0, 1, 2, 3])))] if more else []
+    c["more_first"] = draw(st.booleans())
+    return c
+
+
+@st.composite
+def one_declaration(draw, layout=True):
     kind = draw(st.sampled_from(KINDS))
-    c = {"kind": kind, "layout": draw(gen.layout(max_len=40)), "use": False}
+    c = {"kind": kind, "layout": draw(gen.layout(max_len=40)) if layout else None, "use": False}
     name_styles = NAME_STYLES
     if kind == "schema":
         name_styles = ("plain", "plain", "dq", "dqsp", "br")  # K17: backticks are stripped in CREATE SCHEMA
-    c["schema"] = draw(st.one_of(st.none(), gen.ident(styles=name_styles))) if kind in ("enum", "object", "table", "kv", "domain") else None
+    c["schema"] = draw(st.one_of(st.none(), gen.ident(styles=name_styles))) if kind in ("enum", "object", "table", "kv", "domain", "domain_enum") else None
     c["name"] = draw(gen.ident(styles=name_styles))
     if kind == "enum":
         c["values"] = draw(st.lists(gen.safe_literal(max_size=8), min_size=1, max_size=8))
@@ -43,6 +52,9 @@ def case_strategy(draw):
         n = draw(st.integers(1, 3))
         keys = draw(gen.distinct_names(n))
         c["kv"] = [[k, draw(st.one_of(gen.plain_ident(), st.integers(0, 999).map(str)))] for k in keys]
+    elif kind == "domain_enum":
+        c["values"] = draw(st.lists(gen.safe_literal(max_size=8), min_size=1, max_size=5))
+        c["base"] = draw(st.sampled_from(["ENUM", "enum", "Enum"]))
     elif kind == "domain":
         t, size = draw(gen.type_and_size(allow_random_word=False))
         if not size:
@@ -82,6 +94,8 @@ def decl_tokens(c):
         else:
             toks += plist([[I(kk), EQ, V(v)] for kk, v in c["kv"]])
         return toks + [END]
+    if k == "domain_enum":
+        return K("CREATE", "DOMAIN") + [I(qname(c))] + K("AS") + [V(c["base"])] + plist([[L(v)] for v in c["values"]]) + [END]
     if k == "domain":
         return K("CREATE", "DOMAIN") + [I(qname(c))] + ([] if c.get("no_as") else K("AS")) + [T(c["type"])] + gen.size_tokens(c["size"]) + [END]
     if k == "schema":
@@ -140,42 +154,67 @@ class C18(Prop):
     def strategy(self, tier):
         return case_strategy()
 
+    def sequence(self, c):
+        """declarations of the script in order: [(declaration, is the main one)]"""
+        more = [(dict(m, use=False), False) for m in c.get("more", [])]
+        return (more + [(c, True)]) if c.get("more_first") else ([(c, True)] + more)
+
     def statements(self, c):
-        st_ = [decl_tokens(c)]
-        if c.get("use"):
-            st_.append(using_table_tokens(c))
+        st_ = []
+        for d, main in self.sequence(c):
+            st_.append(decl_tokens(d))
+            if main and d.get("use"):
+                st_.append(using_table_tokens(d))
         return st_
 
     def describe(self, c):
-        return {"ddl": render_script(self.statements(c), c["layout"]), "kind": c["kind"]}
+        return {"ddl": render_script(self.statements(c), c["layout"]), "kinds": [d["kind"] for d, _ in self.sequence(c)]}
 
     def evaluate(self, c):
         out = Outcome()
         k = c["kind"]
         ddl = render_script(self.statements(c), c["layout"])
-        out.label("kind:" + k, "use=%s" % c["use"])
+        out.label("kind:" + k, "use=%s" % c["use"], "declarations=%d" % (1 + len(c.get("more", []))))
         optional = 0
         if k == "schema":
             out.label("schema_form:" + c["form"])
             optional = {"plain": 0, "ine": 1, "auth": 1, "comment": 1, "comment_eq": 1, "replace": 1, "only_auth": 1, "project": 1}.get(c["form"], 2)
         elif k == "tablespace":
             optional = bool(c["ts_type"]) + bool(c["temporary"]) + bool(c["props"])
-        elif k in ("enum", "object"):
-            optional = bool(c["schema"]) + bool(c["replace"]) + (len(c.get("values", c.get("attrs", []))) > 1)
+        elif k in ("enum", "object", "domain_enum"):
+            optional = bool(c["schema"]) + bool(c.get("replace")) + (len(c.get("values", c.get("attrs", []))) > 1)
         else:
             optional = bool(c.get("schema")) + bool(c.get("comment")) + 1
-        out.nontrivial = optional >= 2 or c["use"]
+        out.nontrivial = optional >= 2 or c["use"] or bool(c.get("more"))
         r = loader.try_parse(ddl)
         out.parses += 1
         if r[0] != "ok":
             out.fail("exception", "%s: %s on %r" % (r[1], r[2], ddl))
             return out
         res = r[1]
+        seq = self.sequence(c)
+        want = len(seq) + (1 if c["use"] else 0)
         with compare(out, "result"):
-            if len(res) != (2 if c["use"] else 1):
-                out.fail("entity-count", "expected %d entities got %r; %r" % (2 if c["use"] else 1, res, ddl))
+            if len(res) != want:
+                out.fail("entity-count", "expected %d entities got %r; %r" % (want, res, ddl))
                 return out
-            e = res[0]
+            i = 0
+            for d, main in seq:
+                self.check_entity(out, d, res[i], ddl)
+                i += 1
+                if main and d.get("use"):
+                    t = res[i]
+                    i += 1
+                    names = [x["name"] for x in t["columns"]]
+                    if names != ["c1", "c2", "c3"]:
+                        out.fail("using-table", "columns %r; %r" % (names, ddl))
+                    elif t["columns"][1]["type"] != qname(d) or t["columns"][1]["nullable"] is not False:
+                        out.fail("using-table", "type name not verbatim: expected %r got %r (nullable %r); %r" % (qname(d), t["columns"][1]["type"], t["columns"][1]["nullable"], ddl))
+        return out
+
+    def check_entity(self, out, c, e, ddl):
+        k = c["kind"]
+        if True:
             low = low_keys(e)
 
             def expect(key, val):
@@ -208,6 +247,13 @@ class C18(Prop):
                 expect("schema", c["schema"])
                 expect("domain_name", c["name"])
                 expect("base_type", c["type"])
+                if not c.get("no_as"):
+                    expect("properties", {})
+            elif k == "domain_enum":
+                expect("schema", c["schema"])
+                expect("domain_name", c["name"])
+                expect("base_type", c["base"])
+                expect("properties", {"values": c["values"]})
             elif k == "schema":
                 f = c["form"]
                 expect("schema_name", c["user"] if f == "only_auth" else c["name"])
@@ -234,19 +280,11 @@ class C18(Prop):
                 expect("type", c["ts_type"])
                 expect("temporary", c["temporary"])
                 expect("properties", ({kk: v for kk, v in c["props"]} or None))
-            kind_key = {"enum": "type_name", "object": "type_name", "table": "type_name", "kv": "type_name", "domain": "domain_name",
+            kind_key = {"enum": "type_name", "object": "type_name", "table": "type_name", "kv": "type_name", "domain": "domain_name", "domain_enum": "domain_name",
                         "schema": "schema_name", "database": "database_name", "tablespace": "tablespace_name"}[k]
             others = {"type_name", "domain_name", "schema_name", "database_name", "tablespace_name", "table_name", "sequence_name"} - {kind_key}
             if others & set(e):
                 out.fail("entity-kind", "entity of kind %s carries keys of another kind: %r; %r" % (k, sorted(others & set(e)), ddl))
-            if c["use"]:
-                t = res[1]
-                names = [x["name"] for x in t["columns"]]
-                if names != ["c1", "c2", "c3"]:
-                    out.fail("using-table", "columns %r; %r" % (names, ddl))
-                elif t["columns"][1]["type"] != qname(c) or t["columns"][1]["nullable"] is not False:
-                    out.fail("using-table", "type name not verbatim: expected %r got %r (nullable %r); %r" % (qname(c), t["columns"][1]["type"], t["columns"][1]["nullable"], ddl))
-        return out
 
 
 PROP = C18()
